@@ -148,6 +148,45 @@ def fill_message(rng, pbcls, depth=0):
     return msg
 
 
+def vary_nested(rng, msg):
+    """Every repeated nested-message field becomes a family of siblings: one element and, for each of its scalar fields, a copy
+    that differs from it in that field alone (an element's conversion must not depend on its siblings or on what was converted before)."""
+    from google.protobuf.descriptor import FieldDescriptor as FD
+    import aioesphomeapi.api_pb2 as pb
+    for fd in type(msg).DESCRIPTOR.fields:
+        if fd.type != 11 or not fd.is_repeated:
+            continue
+        sub = getattr(pb, fd.message_type.name, None)
+        if sub is None:
+            continue
+        base = fill_message(rng, sub, 1)
+        lst = getattr(msg, fd.name)
+        del lst[:]
+        lst.append(base)
+        for sfd in sub.DESCRIPTOR.fields:
+            if sfd.is_repeated or sfd.type == 11:
+                continue
+            e = sub()
+            e.CopyFrom(base)
+            v = getattr(base, sfd.name)
+            if sfd.type == FD.TYPE_BOOL:
+                nv = not v
+            elif sfd.type == FD.TYPE_ENUM:
+                vals = [x.number for x in sfd.enum_type.values]
+                nv = next((x for x in vals if x != v), v)
+            elif sfd.type in (FD.TYPE_STRING,):
+                nv = v + "x"
+            elif sfd.type in (FD.TYPE_BYTES,):
+                nv = v + b"x"
+            elif sfd.type in (FD.TYPE_FLOAT, FD.TYPE_DOUBLE):
+                nv = 2.5 if v != 2.5 else 3.5
+            else:
+                nv = 1 if v != 1 else 2
+            setattr(e, sfd.name, nv)
+            lst.append(e)
+    return msg
+
+
 KIND = {"KNone": "n", "KEnum": "e", "KEnumList": "l", "KFloatFix": "f", "KListCopy": "c", "KNestedList": "x"}
 
 
@@ -393,11 +432,14 @@ def run(rep, tier, seed):
     # ---- conversions
     n_msgs = 12 if tier == "quick" else 150
     lines, cases = [], []
+    by_model = {mn: fs for _, mn, fs, _ in class_pairs}
     for pbn, mn, fs, wf in class_pairs:
         pbcls, mocls = getattr(pb, pbn), getattr(model, mn)
         kinds = dict(fs)
         for i in range(n_msgs):
             msg = fill_message(rng, pbcls) if i else pbcls()
+            if i in (1, 2):
+                msg = vary_nested(rng, msg)
             replay = {"kind": "impl-case", "class": mn, "message": pbn, "serialized": msg.SerializeToString().hex()}
             try:
                 obj = mocls.from_pb(msg)
@@ -414,6 +456,35 @@ def run(rep, tier, seed):
                     sub = getattr(model, k[1])
                     if len(got) != len(wv) or not all(isinstance(g, sub) for g in got):
                         rep.violation(f"C14/nested:{mn}.{n}", f"{mn}.{n}: {len(wv)} nested wire messages became {got!r}", replay)
+                        continue
+                    # ... and every nested element carries the values of ITS wire message (whatever its siblings and earlier messages held)
+                    sub_fs = by_model.get(k[1])
+                    if sub_fs is None:
+                        # a nested class outside the two tables: plain fields are carried as they are, enum fields by number
+                        import dataclasses as _dc
+                        import enum as _enum
+                        for j, (g, w) in enumerate(zip(got, wv)):
+                            for fld in _dc.fields(g):
+                                if not hasattr(w, fld.name):
+                                    continue
+                                gv, wvv = getattr(g, fld.name), getattr(w, fld.name)
+                                if isinstance(gv, _enum.Enum):
+                                    okv = int(gv) == int(wvv)
+                                elif isinstance(gv, (bool, int, str, bytes)) and not isinstance(gv, _enum.Enum):
+                                    okv = gv == wvv
+                                else:
+                                    continue
+                                if not okv:
+                                    rep.violation(f"C14/value:{mn}.{n}.{fld.name}", f"{mn}.{n}[{j}].{fld.name}: wire value {str(wvv)[:60]!r} was converted to {str(gv)[:60]!r}", replay)
+                        continue
+                    for j, (g, w) in enumerate(zip(got, wv)):
+                        for sn, sk in (sub_fs or []):
+                            if not hasattr(w, sn) or sk[0] == "KNestedList":
+                                continue
+                            sexp = oracle_field(sk, getattr(w, sn), members, fix)
+                            if not same(getattr(g, sn), sexp):
+                                rep.violation(f"C14/value:{mn}.{n}.{sn}", f"{mn}.{n}[{j}].{sn}: wire value {str(getattr(w, sn))[:60]!r} was converted to "
+                                              f"{str(getattr(g, sn))[:60]!r}, expected {str(sexp)[:60]!r}", replay)
                     continue
                 exp = oracle_field(k, wv, members, fix)
                 if k[0] in ("KEnum", "KEnumList", "KFloatFix") or isinstance(exp, list):
